@@ -136,18 +136,23 @@ func init() {
 		return &Val{T: calDim(args[0].T, args[1].T), Typ: intT}
 	}
 	specBuiltins["gotime_year"] = func(ev *evaluator, args []*Val) *Val {
+		ev.x.assumeGoTime(ev.st, args[0].T)
 		return &Val{T: UF("time.year", SInt, args[0].T), Typ: intT}
 	}
 	specBuiltins["gotime_month"] = func(ev *evaluator, args []*Val) *Val {
+		ev.x.assumeGoTime(ev.st, args[0].T)
 		return &Val{T: UF("time.month", SInt, args[0].T), Typ: intT}
 	}
 	specBuiltins["gotime_day"] = func(ev *evaluator, args []*Val) *Val {
+		ev.x.assumeGoTime(ev.st, args[0].T)
 		return &Val{T: UF("time.day", SInt, args[0].T), Typ: intT}
 	}
 	specBuiltins["gotime_hour"] = func(ev *evaluator, args []*Val) *Val {
+		ev.x.assumeGoTime(ev.st, args[0].T)
 		return &Val{T: UF("time.hour", SInt, args[0].T), Typ: intT}
 	}
 	specBuiltins["gotime_minute"] = func(ev *evaluator, args []*Val) *Val {
+		ev.x.assumeGoTime(ev.st, args[0].T)
 		return &Val{T: UF("time.minute", SInt, args[0].T), Typ: intT}
 	}
 }
